@@ -289,6 +289,9 @@ class Evaluator:
         self.spans = tok_spans
         self.fails = list(fails)
         self.events = []
+        self.origins = []        # parallel to events: (host sequence number, path of (child index, lhs) through inlined nodes)
+        self._path = []
+        self._host = 0
         self.occ = {}
         self.inline_nts = set(inline_nts)
         self.default_loc = 0
@@ -299,6 +302,7 @@ class Evaluator:
             return
         seq = len(self.events)
         self.events.append(p.pid)
+        self.origins.append((self._host, tuple(self._path)))
         if p.fallible:
             occ = self.occ.get(p.pid, 0)
             self.occ[p.pid] = occ + 1
@@ -364,6 +368,7 @@ class Evaluator:
             else:
                 pos = self.default_loc
             span = (pos, pos)
+        self._host += 1
         vals = self.alt_values(kids, flat, (span[0], span[1], True, True))
         self.action_event(p)
         v = self.apply(p.sem, vals, span)
@@ -422,8 +427,10 @@ class Evaluator:
                     en_ok = host_pair[3]
                 pair = (st, en, st_ok, en_ok)
             cp, ckids = c
+            self._path.append((j, cp.lhs))
             cvals = self.alt_values(ckids, fc, pair)
             self.action_event(cp)
+            self._path.pop()
             vals.append(self.apply(cp.sem, cvals, pair))
             k += len(fc)
         return vals
@@ -475,6 +482,17 @@ def evaluate(tree, tok_kinds, fails=(), spans=None, inline_nts=()):
         return ("ok", v, ev.events)
     except EvalFail as f:
         return ("fail", f.err, ev.events)
+
+
+def evaluate_origins(tree, tok_kinds, fails=(), spans=None, inline_nts=()):
+    """like evaluate, plus for every logged event where it came from: (host reduction number,
+    path of (child index, nonterminal) through the inlined nodes below the host production)"""
+    ev = Evaluator(tok_kinds, tok_spans=spans, fails=fails, inline_nts=inline_nts)
+    try:
+        ev.eval(tree)
+    except EvalFail:
+        pass
+    return list(ev.events), list(ev.origins)
 
 
 def values_match(exp, got):
